@@ -78,6 +78,12 @@ Definition fpair := (fdesc * fname)%type.
 Definition rt_fields (S : schema) (nm : names) (tid : nat) : list fpair :=
   combine (nth tid S []) (mn_fields (nm_msg nm tid)).
 
+Fixpoint rt_find (fps : list fpair) (num : N) : option fpair :=
+  match fps with
+  | [] => None
+  | p :: r => if f_num (fst p) =? num then Some p else rt_find r num
+  end.
+
 (* full name of an extension field: its text name without the brackets *)
 Definition ext_full (fn : fname) : list byte := removelast (tl (fn_text fn)).
 
